@@ -113,6 +113,7 @@ def gen_source(rng):
             extra += ["edge_nodes", rng.choice(["edge_lonlat", "edge_xyz"])]
         d["extra"] = extra
         d["xyz_scale"] = rng.choice([1.0, 1.0, 2.0, 6371.0])
+        d["dict_kwargs"] = rng.random() < 0.4
     if spec["ctor"] == "vertices_xyz":
         d["xyz_scale"] = rng.choice([1.0, 1.0, 0.5, 6371.0])
     spec["dialect"] = d
@@ -164,6 +165,10 @@ def prepare(spec, scratch):
         if ctor == "topology_lists":
             kw = _to_lists(kw)
         if ctor == "open_grid_dict":
+            if d.get("dict_kwargs"):
+                # keyword arguments next to a topology dictionary (the dictionary is the caller's)
+                extra_kw = {"face_lon": np.zeros(mesh.n_face), "face_lat": np.zeros(mesh.n_face)}
+                return {"dict": kw, "kwargs": extra_kw}, lambda: ux.open_grid(kw, **extra_kw)
             return {"dict": kw}, lambda: ux.open_grid(kw)
         return {"kwargs": kw}, lambda: ux.Grid.from_topology(**kw)
     if ctor in ("vertices", "vertices_list", "vertices_xyz"):
@@ -231,7 +236,7 @@ class Alias(Profile):
             r = rng.random()
             if r < 0.2 and len(parties) < 3:
                 h = f"c{len(parties) - 1}"
-                ops.append({"op": "copy", "src": rng.choice(parties), "as": h, "via": rng.choice(["grid", "grid", "uxda"])})
+                ops.append({"op": "copy", "src": rng.choice(parties), "as": h, "via": rng.choice(["grid", "grid", "uxda", "uxda_data"])})
                 parties.append(h)
             elif r < 0.55:
                 ops.append(dict(self.gen_mutator(rng), op="mutate", on=rng.choice(parties)))
@@ -397,7 +402,10 @@ class Alias(Profile):
                 c = g.copy()
             else:
                 da = ux.UxDataArray(np.arange(g.n_face, dtype=float), dims=["n_face"], uxgrid=g, name="v")
-                c = da.copy(deep=True).uxgrid
+                if op["via"] == "uxda_data":
+                    c = da.copy(deep=True, data=np.zeros(g.n_face)).uxgrid
+                else:
+                    c = da.copy(deep=True).uxgrid
         except Exception as e:
             return ("exc", type(e).__name__), []
         h = op["as"]
